@@ -250,11 +250,14 @@ ReplayLaw(sig, chain, D) ==
 \* what the owner of a binding may do to it between two calls (in place); each edit turns the binding of one valid
 \* call into the binding of another valid call
 Edits == <<"set_first", "fail_first", "more_args", "more_kw">>
-EditOK(sig, D, e) == CASE e = "set_first"  -> sig.npos >= 1 /\ DGet(D, "a") # VInt(9)
-                       [] e = "fail_first" -> sig.npos >= 1 /\ DGet(D, "a") # VStr("bad_bare")
-                       [] e = "more_args"  -> sig.varargs /\ (LET xs == Pay(DGet(D, "args")) IN IF Len(xs) = 0 THEN TRUE ELSE xs[Len(xs)] # VInt(8))
-                       [] e = "more_kw"    -> sig.varkw /\ ~DHas(DGet(D, "kw"), "z")
-                       [] OTHER -> FALSE
+EditApplies(sig, e) == (e \in {"set_first", "fail_first"} /\ sig.npos >= 1) \/ (e = "more_args" /\ sig.varargs) \/ (e = "more_kw" /\ sig.varkw)
+\* (the model-checked machine makes every edit once: the edits stay finitely many)
+EditOK(sig, D, e) == /\ EditApplies(sig, e)
+                     /\ CASE e = "set_first"  -> DGet(D, "a") # VInt(9)
+                          [] e = "fail_first" -> DGet(D, "a") # VStr("bad_bare")
+                          [] e = "more_args"  -> (LET xs == Pay(DGet(D, "args")) IN IF Len(xs) = 0 THEN TRUE ELSE xs[Len(xs)] # VInt(8))
+                          [] e = "more_kw"    -> ~DHas(DGet(D, "kw"), "z")
+                          [] OTHER -> FALSE
 Edited(sig, D, e) == CASE e = "set_first"  -> DSet(D, "a", VInt(9))                                         \* D['a'] = 9
                        [] e = "fail_first" -> DSet(D, "a", VStr("bad_bare"))                                 \* D['a'] = 'bad_bare'
                        [] e = "more_args"  -> DSet(D, "args", VTup(Append(Pay(DGet(D, "args")), VInt(8))))   \* D['args'] += (8,)
